@@ -452,13 +452,20 @@ structure ConfStep (cfg : Cfg) (c c' : Conf) : Prop where
   ids : ∀ x, (c'.smap.lookup x).isSome → (c.smap.lookup x).isSome ∨ x ∈ allDefaultIds cfg
   cache : c'.cache = c.cache ∨ c'.cache = []
   same : c'.smap.length = c.smap.length → c'.smap = c.smap ∧ c'.cache = c.cache
+  /-- a palette that is still cached was cached before, and the syntax map has not changed since -/
+  keep : ∀ cls a, c'.cache.lookup cls = some a → c'.smap = c.smap ∧ c.cache.lookup cls = some a
 
 theorem ConfStep.refl (cfg : Cfg) (c : Conf) : ConfStep cfg c c :=
-  ⟨rfl, rfl, Sub.refl _, Nat.le_refl _, fun _ h => Or.inl h, Or.inl rfl, fun _ => ⟨rfl, rfl⟩⟩
+  ⟨rfl, rfl, Sub.refl _, Nat.le_refl _, fun _ h => Or.inl h, Or.inl rfl, fun _ => ⟨rfl, rfl⟩, fun _ _ h => ⟨rfl, h⟩⟩
 
 theorem ConfStep.trans {cfg : Cfg} {a b c : Conf} (h1 : ConfStep cfg a b) (h2 : ConfStep cfg b c) :
     ConfStep cfg a c := by
-  refine ⟨h2.nc.trans h1.nc, h2.closed.trans h1.closed, h1.sub.trans h2.sub, Nat.le_trans h1.len h2.len, ?_, ?_, ?_⟩
+  refine ⟨h2.nc.trans h1.nc, h2.closed.trans h1.closed, h1.sub.trans h2.sub, Nat.le_trans h1.len h2.len, ?_, ?_, ?_, ?_⟩
+  rotate_left 3
+  · intro cls x hx
+    obtain ⟨e1, e2⟩ := h2.keep cls x hx
+    obtain ⟨e3, e4⟩ := h1.keep cls x e2
+    exact ⟨e1.trans e3, e4⟩
   · intro x hx
     rcases h2.ids x hx with h | h
     · exact h1.ids x h
@@ -482,7 +489,7 @@ theorem step_addDefaults {cfg : Cfg} (hcfg : cfgOk cfg = true) {c : Conf} (hc : 
   have hdef := cfgOk_defaults hcfg hmem hd
   have hf := addItems_fields c0 d
   have hsub : Sub c.smap c'.smap := sub_addItems c0 d
-  refine ⟨⟨?_, ?_, ?_, ?_⟩, ⟨hf.1, hf.2.1, hsub, ?_, ?_, hf.2.2.2, ?_⟩, ?_⟩
+  refine ⟨⟨?_, ?_, ?_, ?_⟩, ⟨hf.1, hf.2.1, hsub, ?_, ?_, hf.2.2.2, ?_, ?_⟩, ?_⟩
   · intro x hx
     have := hc.builtin x hx
     cases hl : c.smap.lookup x with
@@ -515,6 +522,17 @@ theorem step_addDefaults {cfg : Cfg} (hcfg : cfgOk cfg = true) {c : Conf} (hc : 
     have := addItems_same c0 d hl
     show (c0.addItems d).smap = c.smap ∧ (c0.addItems d).cache = c.cache
     rw [this]; exact ⟨rfl, rfl⟩
+  · intro cls' x hx
+    show (c0.addItems d).smap = c.smap ∧ c.cache.lookup cls' = some x
+    have hx' : (c0.addItems d).cache.lookup cls' = some x := hx
+    unfold Conf.addItems at hx' ⊢
+    split
+    · rename_i hnew
+      rw [hnew] at hx'
+      exact ⟨rfl, hx'⟩
+    · rename_i n ns hnew
+      rw [hnew] at hx'
+      simp at hx'
   · rw [hf.2.2.1]; simp [c0]
 
 theorem foldlM_register {cfg : Cfg} (f : Nat)
